@@ -488,6 +488,7 @@ def _productions():
     add("cont-dict", "K", [S, S], lambda a, b: ("dct", (("a", a), ("b", b))))
     add("cont-nested-tuple", "K", [S, S], lambda a, b: ("tup", (("lst", (a, ("c", 7))), b)))
     add("cont-dict-in-tuple", "K", [S, S], lambda a, b: ("tup", (("dct", (("k", a),)), b)))
+    add("cont-tuple-in-dict", "K", [S, S], lambda a, b: ("dct", (("k", ("tup", (a, ("c", 7)))), ("b", b))))
     add("cont-tuple-vec", "K", [("V", None), S], lambda a, b: ("tup", (a, b)))
     # indexing a container literal
     add("idx-literal", "S", [("S", None), S, ("I", "IDX0")], lambda a, b, i: ("idx", ("tup", (a, b)), i), maxrand=2)
@@ -505,7 +506,7 @@ PRODUCTIONS = _productions()
 
 QUICK_DEPTH1_ONLY = {
     "bindivmod", "un-pos", "round-ndigits", "call-f1-allkw", "call-pair-kw", "call-min", "call-cos", "cont-nested-tuple",
-    "cont-dict-in-tuple", "cont-list", "vec3", "s*vec", "vec/s", "meth-offsetRotated", "meth-angleTo", "meth-dot",
+    "cont-dict-in-tuple", "cont-tuple-in-dict", "cont-list", "vec3", "s*vec", "vec/s", "meth-offsetRotated", "meth-angleTo", "meth-dot",
     "s+ori", "euler-pitch", "uniform-of", "star-extra", "slice-hi", "meth-localAnglesFor", "idx-literal", "call-pair",
 }  # fmt: skip
 
